@@ -34,6 +34,9 @@ def _fail(msg):
 
 def on_shape(shape):
     global LEN, B, LO
+    if "db" in shape:
+        e2e.on_shape(shape)
+        return
     if shape.get("kind") == "ver":
         return
     c09.on_shape(shape)
@@ -292,6 +295,74 @@ def check_ver(s0: int, s1: int, s2: int) -> bool:
     return core.final(True)
 
 
+# ------------------------------------------------------------------ (c) whole specifications on REG
+import harness.e2e as e2e  # noqa: E402
+import universes.reg as R  # noqa: E402
+from harness.e2e import Bad  # noqa: E402
+
+
+def assert_objects(ctx):
+    spec = ctx.spec
+    if spec is None:
+        return
+    for n in range(6):
+        for params in ctx.start.possible_parameters(n):
+            key = tuple(params[q] for q in ctx.start.extra_parameters)
+            if len(set(key)) > 1:
+                continue
+            try:
+                objs = list(spec.generate_objects_of_size(n, **params))
+            except NotImplementedError:
+                core.observe("specifications that decline object generation (complement/quotient rules)")
+                return
+            truth = [w for w in R.words(ctx.table, n) if all(w.count("a") == v for v in key)]
+            if len(set(objs)) != len(objs):
+                raise Bad("size %d %r: an object is generated twice: %r" % (n, params, sorted(objs)))
+            if sorted(map(str, objs)) != sorted(truth):
+                raise Bad("size %d %r: generated %r, the objects are %r" % (n, params, sorted(map(str, objs)), sorted(truth)))
+            if len(objs) != spec.count_objects_of_size(n, **params):
+                raise Bad("size %d %r: %d objects generated, the specification counts %d" % (n, params, len(objs), spec.count_objects_of_size(n, **params)))
+    core.observe("specifications whose objects were generated")
+
+
+ASSERT = assert_objects
+PREPARE = None
+
+# >>> e2e wrappers
+# ---- end-to-end wrappers (same text in every module that uses harness/e2e.py; ASSERT / PREPARE are module globals)
+def check_opt(t: int) -> bool:
+    """
+    pre: e2e.tin(t)
+    post: _
+    """
+    return core.final(e2e.body_opt(t, ASSERT, PREPARE))
+
+
+def check_sched(t: int, j: int) -> bool:
+    """
+    pre: e2e.tin(t) and 0 <= j <= e2e.NJ
+    post: _
+    """
+    return core.final(e2e.body_sched(t, j, ASSERT, PREPARE))
+
+
+def check_sched2(t: int, j0: int, j1: int) -> bool:
+    """
+    pre: e2e.tin(t) and 0 <= j0 < j1 <= e2e.NJ
+    post: _
+    """
+    return core.final(e2e.body_sched2(t, j0, j1, ASSERT, PREPARE))
+
+
+def check_rng(t: int, d0: int, d1: int, d2: int) -> bool:
+    """
+    pre: e2e.tin(t) and 0 <= d0 <= 2 and 0 <= d1 <= 2 and 0 <= d2 <= 2
+    post: _
+    """
+    return core.final(e2e.body_rng(t, (d0, d1, d2), ASSERT, PREPARE))
+# <<< e2e wrappers
+
+
 def _bounds(t) -> bool:
     for i in range(LEN):
         if not (LO[i] <= t[i] <= B):
@@ -332,11 +403,16 @@ def groups(tier):
                 break
         gs.append({"name": "%s-W%dB%d" % (c["name"], c["W"], c["B"]), "fn": "check", "shape": c,
                    "cond_timeout": 900.0 if tier == "quick" else 2400.0, "path_timeout": 120.0, "weight": (c["B"] + 1) ** c09.LEN})
+    # (c) whole specifications
+    opts = ["plain", "inferral", "symmetry", "factory2", "finite", "k", "kk", "ku", "two"]
+    if tier == "thorough":
+        opts += ["two-k", "k-inferral", "ku-factory", "finite-mixed", "inferral-symmetry"]
+    gs += e2e.std_groups(tier, opts=opts, sched=False, rng=True, S3=True)
     return gs
 
 
 def selftest(tier):
-    return {}
+    return e2e.selftest_universe(tier)
 
 
 def meta(tier):
